@@ -64,18 +64,29 @@ PLAYER_KINDS = ('deal_hole', 'deal_board', 'stand_pat_or_discard',
                 'post_bring_in', 'fold', 'check_or_call',
                 'complete_bet_or_raise_to', 'show_or_muck_hole_cards')
 
-TEXT = st.text(
-    alphabet=st.sampled_from(
-        list("abcXYZ 0123456789_-.,:;!?/\\\"#=[]{}()'éü€")),
-    max_size=12,
-).filter(lambda t: "'''" not in t and not t.endswith("'"))
-KEYS = st.text(alphabet=st.sampled_from(list('abcdefXYZ019_-')), min_size=1,
-               max_size=8).map(lambda k: '_' + k)
+# "arbitrary user fields": any text a program may hold - quotes in any
+# number and position, line breaks, tabs, other control characters
+TEXT = st.one_of(
+    st.text(
+        alphabet=st.sampled_from(
+            list("abcXYZ 0123456789_-.,:;!?/\\\"#=[]{}()'éü€")),
+        max_size=12),
+    st.text(
+        alphabet=st.sampled_from(list("ab'\"\n\t\r\\ #\x00\x1b\x7f€")),
+        max_size=8),
+)
+KEYS = st.one_of(
+    st.text(alphabet=st.sampled_from(list('abcdefXYZ019_-')), min_size=1,
+            max_size=8),
+    st.text(alphabet=st.sampled_from(list("ab.# 'é\"=[]")), min_size=1,
+            max_size=6),
+).map(lambda k: '_' + k)
 SCALARS = st.one_of(
     TEXT, st.integers(-10 ** 6, 10 ** 6), st.booleans(),
     st.sampled_from([Decimal('0.5'), Decimal('12.25'), Decimal('-3.125'),
                      Decimal('100.01')]),
     st.times().map(lambda t: t.replace(microsecond=0, tzinfo=None)),
+    st.dates(), st.datetimes().map(lambda t: t.replace(microsecond=0)),
     st.just(0), st.just(False), st.just(''),
 )
 VALUES = st.one_of(
